@@ -242,9 +242,10 @@ CrlfStep(s, c, b, e, cause, next) ==
 UntilCloseStep(s, c, b, e) ==
     LET avail == Len(b) - s.pos
         tot == IF s.total + avail > Huge THEN Huge ELSE s.total + avail
-        s1 == IF avail = 0 THEN s
-              ELSE IF tot > s.maxb THEN [s EXCEPT !.pos = Len(b), !.total = tot]
-              ELSE Take([s EXCEPT !.owed = avail, !.total = tot], b, avail) IN
+        room == IF s.maxb > s.total THEN s.maxb - s.total ELSE 0
+        n == IF avail < room THEN avail ELSE room            \* bytes still within the limit are handed over
+        s0 == IF n = 0 THEN s ELSE Take([s EXCEPT !.owed = n], b, n)
+        s1 == [s0 EXCEPT !.pos = Len(b), !.total = tot, !.owed = 0] IN
     IF ~e THEN Block(s1)
     ELSE IF tot > s.maxb THEN Reject400(s1, "bodysize", c)
     ELSE EndBody(s1, c)
@@ -405,7 +406,7 @@ PrefixOf(full) ==
     /\ Len(ms) <= Len(full)
     /\ \A i \in 1..Len(ms) : /\ ms[i].sl = full[i].sl /\ ms[i].hs = full[i].hs
                              /\ IsPrefix(ms[i].body, full[i].body)
-                             /\ ms[i].end = "F" => ms[i].body = full[i].body
+                             /\ (ms[i].end = "F" /\ ms[i].fr[1] # "close") => ms[i].body = full[i].body   \* (a close-delimited body ends where the peer closes)
 
 (* a refusal answers 400 or nothing, closes, and is final *)
 RefusalCloses == r.rej # "none" => r.closed
